@@ -35,8 +35,19 @@ def run(args):
         ctx.obligations.append(ob)
     else:
         cases, metas = ctx.run_harness("c15", extra=[ctx.scratch])
+        scan = [c for c in cases if c[0].startswith("c15 scan ")]
+        cases = [c for c in cases if not c[0].startswith("c15 scan ")]
+        ctx.tie("model scans (jsonSteps / asyncSteps: the steps the scanners' match arms follow) = the real detect_serde_usage / detect_async_usage with a trigger put at every expression position of the corpus and repository programs",
+                scan, ctx.run_driver([c[0] for c in scan]))
+        scan_paths = {}
+        for req, real in scan:
+            _, _, feature, path = req.split(" ")
+            ctx.nontrivial.add(req)
+            scan_paths[feature] = scan_paths.get(feature, 0) + 1
+            if real != "detected":
+                failures.append({"request": req, "real": real, "why": f"a {feature} trigger at this position is not seen by the scanner: the crate the generated code needs is not declared"})
         model = ctx.run_driver([c[0] for c in cases])
-        ctx.evaluations = len(cases)
+        ctx.evaluations = len(cases) + len(scan)
 
         def canon_real(req, real):
             if req.startswith("c15 build") or req.startswith("c15 trigger"):
@@ -49,7 +60,7 @@ def run(args):
                 [(c[0], canon_real(*c)) for c, _ in man], [m for _, m in man])
         ctx.tie("model manifest = Cargo.toml written by `incan build` (feature-triggering programs × rust:: imports, main and dependency modules)",
                 [(c[0], canon_real(*c)) for c, _ in bld], [m for _, m in bld])
-        hist = {"refused": 0, "built": 0, "with_unknown": 0, "flag_combos": set()}
+        hist = {"refused": 0, "built": 0, "with_unknown": 0, "flag_combos": set(), "scanner_sweep_positions": scan_paths}
         for req, real in cases:
             p = req.split(" ")
             kind, name, flags, crates = p[1], p[2], p[3], ([] if p[4] == "-" else p[4].split(","))
@@ -98,5 +109,5 @@ def run(args):
         ctx.coverage_extra = {"histogram": hist, "harness_meta": metas, "oracle_failures": len(failures)}
     ctx.conclude_broken_obligations(failures)
     return ctx.finish(
-        rule="ProjectGenerator: every known-table crate and 4 unknown names singly; all 8 flag combinations × a fixed 7-crate set (repeated with fresh hash maps) and the empty set; seeded random crate multisets × flags × project names. `incan build` (stub cargo): all 8 feature-trigger combinations × {no imports, 5 imports}, unknown crates, imports in a dependency module, 5 project names; distinct = distinct (kind, name, flags, crates)",
+        rule="scanner sweep: a serde / async trigger substituted at every expression position (path of walker steps; 2 per distinct path in quick, 6 in thorough) of the corpus, examples, fixtures and snapshot sources, re-parsed, real scanner asked; ProjectGenerator: every known-table crate and 4 unknown names singly; all 8 flag combinations × a fixed 7-crate set (repeated with fresh hash maps) and the empty set; seeded random crate multisets × flags × project names. `incan build` (stub cargo): all 8 feature-trigger combinations × {no imports, 5 imports}, unknown crates, imports in a dependency module, 5 project names; distinct = distinct (kind, name, flags, crates)",
         extra_cov=getattr(ctx, "coverage_extra", None))
